@@ -223,6 +223,7 @@ func (tr *Transaction) Commit() error {
 				case <-tr.db.closeC:
 					tr.db.logf("transaction@commit exiting")
 					tr.commitFailed = true
+					tr.db.setSeq(tr.seq)
 					tr.db.compCommitLk.Unlock()
 					return cerr
 				}
@@ -237,6 +238,9 @@ func (tr *Transaction) Commit() error {
 			// Return error, lets user decide either to retry or discard
 			// transaction.
 			tr.commitFailed = true
+			// Never reuse the sequence numbers of the transaction, its
+			// tables may become live at the next Open.
+			tr.db.setSeq(tr.seq)
 			tr.db.compCommitLk.Unlock()
 			return cerr
 		}
